@@ -97,6 +97,8 @@ impl<T> FileOrMemBuf<T> {
     /// The `chunks` parameter is only used in the [`FileOrMemBuf::Memory`] case, otherwise the
     /// exact chunks that were written to the file by [`FileOrMemBuf::write_chunk`] are returned.
     pub(crate) fn chunks(&mut self, size: usize) -> std::io::Result<ChunkIter<'_, T>> {
+        #[cfg(feature = "__verif")]
+        crate::verif::tap("buf_chunks", usize::MAX, &[size as u128, matches!(self, FileOrMemBuf::ChunkedTmpFile { .. }) as u128, std::mem::size_of::<T>() as u128]);
         match self {
             FileOrMemBuf::ChunkedTmpFile { write } => {
                 write.flush()?;
@@ -121,6 +123,8 @@ impl<T> Default for FileOrMemBuf<T> {
 impl<T: Serialize + Clone> FileOrMemBuf<T> {
     /// Write a chunk to the temporary file or in-memory buffer.
     pub(crate) fn write_chunk(&mut self, chunk: &[T]) -> Result<(), EncodeError> {
+        #[cfg(feature = "__verif")]
+        crate::verif::tap("buf_write", usize::MAX, &[chunk.len() as u128, matches!(self, FileOrMemBuf::ChunkedTmpFile { .. }) as u128, std::mem::size_of::<T>() as u128]);
         match self {
             FileOrMemBuf::ChunkedTmpFile { write, .. } => {
                 encode_into_std_write(chunk, write, legacy())?;
